@@ -39,6 +39,7 @@ def expected_ids(prop, form, home):
         ids += ["%s/%s/%s" % (prop, form, c) for c in HOME_CLAUSES]
     if prop == "C08":
         ids.append("C08/%s/ea" % form)
+        ids.append("C08/%s/address_registers" % form)
     if prop == "C20":
         ids += ["C20/%s/cycle_mix" % form, "C20/%s/charge_is_sum" % form]
     if prop == "C15":
